@@ -346,6 +346,59 @@ theorem rocFold_counts (eps : α) (l : List (α × Bool)) (st : RocState α) :
     · rw [rocStep_fresh eps st x hf]
       cases hx : x.2 <;> simp [posSum, negSum, hx] <;> ring
 
+/-- componentwise order on curve points -/
+def le2 (p q : α × α) : Prop := p.1 ≤ q.1 ∧ p.2 ≤ q.2
+
+theorem pairwise_snoc_le2 (l : List (α × α)) (p q : α × α) (h : (l ++ [p]).Pairwise le2) (hpq : le2 p q) :
+    (l ++ [q]).Pairwise le2 ∧ (l ++ [p] ++ [q]).Pairwise le2 := by
+  obtain ⟨hl, _, hlp⟩ := List.pairwise_append.mp h
+  have hlq : ∀ a ∈ l, le2 a q := fun a ha =>
+    ⟨le_trans (hlp a ha p (by simp)).1 hpq.1, le_trans (hlp a ha p (by simp)).2 hpq.2⟩
+  refine ⟨List.pairwise_append.mpr ⟨hl, by simp, fun a ha b hb => by simp at hb; rw [hb]; exact hlq a ha⟩, ?_⟩
+  refine List.pairwise_append.mpr ⟨h, by simp, fun a ha b hb => ?_⟩
+  simp at hb; rw [hb]
+  rcases List.mem_append.mp ha with ha | ha
+  · exact hlq a ha
+  · simp at ha; rw [ha]; exact hpq
+
+theorem rocStep_mono (eps : α) (st : RocState α) (x : α × Bool)
+    (h : (st.pts ++ [(st.tp, st.fp)]).Pairwise le2) :
+    ((rocStep eps st x).pts ++ [((rocStep eps st x).tp, (rocStep eps st x).fp)]).Pairwise le2 := by
+  have h1 : le2 (st.tp, st.fp) (st.tp + 1, st.fp) := ⟨by simp, le_refl _⟩
+  have h2 : le2 (st.tp, st.fp) (st.tp, st.fp + 1) := ⟨le_refl _, by simp⟩
+  cases hf : isFresh eps st.s0 x.1
+  · rw [rocStep_same eps st x hf]
+    cases hx : x.2
+    · exact (pairwise_snoc_le2 _ _ _ h h2).1
+    · exact (pairwise_snoc_le2 _ _ _ h h1).1
+  · rw [rocStep_fresh eps st x hf]
+    cases hx : x.2
+    · exact (pairwise_snoc_le2 _ _ _ h h2).2
+    · exact (pairwise_snoc_le2 _ _ _ h h1).2
+
+theorem rocFold_mono (eps : α) (l : List (α × Bool)) (st : RocState α)
+    (h : (st.pts ++ [(st.tp, st.fp)]).Pairwise le2) :
+    ((l.foldl (rocStep eps) st).pts ++ [((l.foldl (rocStep eps) st).tp, (l.foldl (rocStep eps) st).fp)]).Pairwise le2 := by
+  induction l generalizing st with
+  | nil => exact h
+  | cons x xs ih => exact ih _ (rocStep_mono eps st x h)
+
+theorem posSum_one_nonneg (l : List (α × Bool)) : 0 ≤ posSum l (fun _ => 1) := by
+  unfold posSum
+  apply List.sum_nonneg
+  intro a ha
+  simp only [List.mem_map] at ha
+  obtain ⟨p, _, rfl⟩ := ha
+  split <;> simp
+
+theorem negSum_one_nonneg (l : List (α × Bool)) : 0 ≤ negSum l (fun _ => 1) := by
+  unfold negSum
+  apply List.sum_nonneg
+  intro a ha
+  simp only [List.mem_map] at ha
+  obtain ⟨p, _, rfl⟩ := ha
+  split <;> simp
+
 /-! ### sorting by score -/
 
 theorem perm_insertByScore (x : α × Bool) (l : List (α × Bool)) : (insertByScore x l).Perm (x :: l) := by
